@@ -2,6 +2,7 @@ package world
 
 import (
 	"context"
+	"fmt"
 	"time"
 
 	enginetypes "github.com/projecteru2/core/engine/types"
@@ -119,6 +120,7 @@ func (s *storeWrap) GetDeployStatus(ctx context.Context, app, entry string) (r m
 	return
 }
 func (s *storeWrap) CreateProcessing(ctx context.Context, p *types.Processing, count int) error {
+	s.ic.Event("plan", fmt.Sprintf("%s=%d", p.Nodename, count)) // the planned count per node, for observers (C13)
 	return s.ic.Do("store.CreateProcessing", false, func() error { return s.in.CreateProcessing(ctx, p, count) })
 }
 func (s *storeWrap) DeleteProcessing(ctx context.Context, p *types.Processing) error {
